@@ -157,6 +157,23 @@ theorem C18_gen_removeFreeDart (m : Map X) (nb d : Nat) :
       · rfl
     · rfl
 
+/-- `merge_attributes(policy, p0, p1, p2)` as translated: every storage of the bucket of the policy (the model
+    enumerates them in ascending order — the `HashMap` order of the code is unspecified, which is why C06 compares
+    error CLASSES) is handed the parameters in the generated order -/
+def interpMergeAttrs (cfg : Cfg X) (t : List Nat) (kind p0 p1 p2 : Nat) : P X Unit :=
+  let ps := [p0, p1, p2]
+  forM_ (storagesOf cfg kind) (fun s => mergeS cfg s (ps.getD (t.getD 0 9) 0) (ps.getD (t.getD 1 9) 0) (ps.getD (t.getD 2 9) 0))
+
+def interpSplitAttrs (cfg : Cfg X) (t : List Nat) (kind p0 p1 p2 : Nat) : P X Unit :=
+  let ps := [p0, p1, p2]
+  forM_ (storagesOf cfg kind) (fun s => splitS cfg s (ps.getD (t.getD 0 9) 0) (ps.getD (t.getD 1 9) 0) (ps.getD (t.getD 2 9) 0))
+
+/-- **tie of `AttrStorageManager::merge_attributes` / `split_attributes`** (C04, C05, C06): the loop hands every
+    storage of the policy's bucket `(id_out, id_in_lhs, id_in_rhs)` / `(id_out_lhs, id_out_rhs, id_in)` unpermuted -/
+theorem C18_gen_attr_loops (cfg : Cfg X) (kind a b c : Nat) :
+    interpMergeAttrs cfg Gen.Alloc.mergeAttributesArgs kind a b c = mergeAttrs cfg kind a b c ∧
+    interpSplitAttrs cfg Gen.Alloc.splitAttributesArgs kind a b c = splitAttrs cfg kind a b c := ⟨rfl, rfl⟩
+
 /-- **C18 on the translated allocation**: the darts handed out by the translated `add_free_darts` are fresh, free,
     blank and addressable (the statement of `C18_add_fresh`, for the map the translated steps produce) -/
 theorem C18_gen_add_is_model (m : Map X) (kindOf : Nat → Nat) (k : Nat) :
